@@ -252,8 +252,8 @@ def check_clauses(pp, torch, c, reject, theta0, script, ncalls, gn=False):
             r, th, last, rej, damp, rad, down, n, _ = o
             if r != th * th:
                 return 'true-loss: call %d returned %r but the loss at the parameters left behind (theta=%r) is %r' % (k, r, th, th * th)
-            if r > loss_prev and rej != reject:
-                return 'monotone: call %d returned %r > previous loss %r with reject_count %d < reject %d' % (k, r, loss_prev, rej, reject)
+            if r > loss_prev and (rej != reject or n - n_prev != reject + 1):
+                return 'monotone: call %d returned %r > previous loss %r after %d trial(s) in that call (reject_count %d, reject %d: a worse loss may only be accepted after reject+1 trials)' % (k, r, loss_prev, n - n_prev, rej, reject)
             if n - n_prev > reject + 1:
                 return 'trials: call %d made %d solves with reject=%d' % (k, n - n_prev, reject)
             tried = script[n_prev:n]
@@ -328,8 +328,8 @@ def real_one(pp, torch, c):
         tol = 1e-9 * max(1.0, abs(true))
         if abs(r - true) > tol:
             return 'true-loss: real model call %d returned %r, loss at the parameters left behind is %r' % (k, r, true)
-        if r > prev + tol and opt.reject_count != c['reject']:
-            return 'monotone: real model call %d returned %r > %r with reject_count=%d < reject=%d' % (k, r, prev, opt.reject_count, c['reject'])
+        if r > prev + tol and (opt.reject_count != c['reject'] or nsolve[0] - n0 != c['reject'] + 1):
+            return 'monotone: real model call %d returned %r > %r after %d trial(s) in that call (reject_count=%d, reject=%d)' % (k, r, prev, nsolve[0] - n0, opt.reject_count, c['reject'])
         if nsolve[0] - n0 > c['reject'] + 1:
             return 'trials: real model call %d made %d solves, reject=%d' % (k, nsolve[0] - n0, c['reject'])
         if c['raise_at'] is not None and n0 < c['raise_at'] <= nsolve[0] and nsolve[0] == c['raise_at']:
